@@ -143,24 +143,25 @@ CHECKS = {
                   "exact model-vs-implementation comparison (real functions in-process, and what the real commands print); property oracle on real "
                   "subprocess runs of `python -m explorerscript.cli.compile|decompile`; behavioural end-to-end part by translation validation "
                   "(kernel-checked validator beh.validate on the text the decompile command prints)",
-        text="Kernel-checked for ALL routine sets (any routine kinds, ops, parameters, offsets): what the decompile command reads from what the compile "
-             "command prints is the same routines/ops/parameters with every op numbered by its 1-based position across all routines (cli_roundtrip); "
-             "for a closed set this is a renumbering of the compiler's set (every jump parameter denotes the op at the position of the original target) "
-             "IF AND ONLY IF the jump parameters are positions (cli_positional, cli_positional_only, cli_positional_iff); the printed JSON has the "
-             "documented structure under explicit hypotheses (cli_docshape); check_settings + read_routines accept EVERY document of the documented "
-             "structure whose position coordinates are strings — all routine and argument types (cli_accepts_documented). The literal property is FALSE on the pinned code, with kernel-checked "
-             "witnesses that are real compiler outputs and are replayed through the real commands on every run: the compile command prints internal "
-             "offsets, which differ from positions after a dropped jump (cli_gap_counterexample: `if` without else; cli_gap_wrong_op_counterexample) or "
-             "an out-of-order op (cli_out_of_order_counterexample: switch with default); every COROUTINE routine is refused (cli_coroutine_counterexample); "
-             "target id -1 is printed as null (cli_target_null_counterexample); the documentation's integer position coordinates are refused "
-             "(cli_posmark_int_counterexample). For the PROPOSED repair (offset -> position when building the JSON) the property is proved for every "
-             "closed routine set (cli_build_positional_fixed; cli_fixed_conservative: nothing changes where the output already was positional; "
-             "cli_coroutine_fixed for registering coroutines under their routine index). The behavioural end-to-end claim (decompiled text behaves like "
-             "the source) and the exit-status claim are NOT theorems: they are checked per run on real subprocesses (translation validation with the "
-             "proven checker; 60 programs quick / 2000 thorough through both commands, plus generated documented documents through the decompile command).",
+        text="Kernel-checked about the model of the CURRENT code (after the fix: commits e79af4f, c9fbb9f, 463a62a, 61b451d), for ALL routine sets (any "
+             "routine kinds, ops, parameters, offsets): what the decompile command reads from what the compile command prints is the canonical form of the "
+             "set — same routines/ops/parameters, every jump parameter replaced by the 1-based position of the op it denotes, every op numbered by its "
+             "position across all routines, coroutines named (cli_roundtrip); for every closed well-formed set each printed jump parameter IS the position of "
+             "its target op (cli_build_positional) and the set the decompile command works on is a renumbering of the compiler's set whose jump parameters "
+             "are positions (cli_positional: Renumbering c (canon c) and Positional (canon c)); every COROUTINE routine finds its name (cli_coroutines_named); "
+             "the printed JSON has the documented structure (cli_docshape); check_settings + read_routines accept EVERY document of the documented structure "
+             "— all five routine types, both target forms, all six argument types, integer or string position coordinates (cli_accepts_documented). Without "
+             "the position table the round trip of a closed set is a renumbering iff the jump parameters already are positions (cli_raw_positional_iff). "
+             "The defects of the pinned tree are kept as kernel-checked witnesses against a definition of the OLD behaviour (lean/ESV/Cli/Pinned.lean): "
+             "cli_gap_counterexample, cli_gap_wrong_op_counterexample, cli_out_of_order_counterexample (internal offsets printed), "
+             "cli_coroutine_counterexample, cli_target_null_counterexample, cli_posmark_int_counterexample — each also states what the repaired code gives; "
+             "the same programs run through the real commands on every run and a regression is reported as a violation with the failing source. "
+             "The behavioural end-to-end claim (decompiled text behaves like the source) and the exit-status claim are NOT theorems: they are checked per "
+             "run on real subprocesses (translation validation with the proven checker; 70 programs quick / 2000 thorough through both commands, plus "
+             "generated documented documents through the decompile command).",
         note=COMMON_NOTE + "The decompiler behind read_routines is not modelled; where its text is wrong the check verifies that the command's text is "
              "identical to the decompiler's own answer through the Python API on the same routine set and records the case as the decompiler's defect "
-             "(C02/C06). Outside the model: JSON true/false (Python bool is an int), duplicate keys, documents that rely on duck typing (non-string "
+             "(C02/C06); an SsbScript fall-back text is only compared with the API's text. Outside the model: JSON true/false (Python bool is an int), duplicate keys, documents that rely on duck typing (non-string "
              "opcode/constant/name), int(s, 0) spellings outside the INTEGER token (blanks, '+', '_'). DocShape is this project's reading of "
              "docs/cli_api_usage.rst (additional members allowed; target_id integer or string; FIXED_POINT a decimal string; position coordinates integer "
              "or whole/half-tile string); a hand-written Python validator of the same reading is compared with it on every document. "
